@@ -65,7 +65,7 @@ theorem funcEndStep_hstate (P : Prog) (s : State) (t : Nat) : (funcEndStep P s t
 theorem isLive_of_active (st : Status) (h : st = .running ∨ st = .atexitDone ∨ st = .handedOver) : isLive st = true := by
   rcases h with h | h | h <;> subst h <;> rfl
 
-theorem countInv_thr (P : Prog) (s s' : State) (t : Nat) (h : step P s t = some s') (hi : CountInv P s) :
+theorem countInv_thr (P : Prog) (s s' : State) (t : Nat) (h : step P s t = some s') (hr : RefInv s) (hi : CountInv P s) :
     CountInv P s' := by
   have hlt : ∀ k, (s.th k).status ≠ .notCreated → k < P.n := by
     intro k hk
@@ -141,12 +141,13 @@ theorem countInv_thr (P : Prog) (s s' : State) (t : Nat) (h : step P s t = some 
         · rw [h1] at hk
           rcases hs with hs | hs | hs <;> rw [hs] at hk <;> simp at hk
         · rw [h1] at hk; simp at hk
-      · rcases oth k hkt with h1 | h1 | ⟨_, h1⟩ | ⟨_, h1⟩
+      · rcases oth k hkt with h1 | h1 | ⟨_, _, h1⟩ | ⟨_, h1⟩
         · rw [h1] at hk ⊢; exact hi.nocode k hk
         · rw [h1] at hk ⊢; exact hi.nocode k hk
         · rw [h1]
         · rw [h1] at hk; simp at hk
-    · exact exec_countEq P s s' t i rest hc ht hi.big (fun k hk => hi.nocode k (Or.inl hk)) hi.memb hi.suf he hi.eq
+    · exact exec_countEq P s s' t i rest hc ht hi.big (fun k hk => hi.nocode k (Or.inl hk)) hi.memb hi.suf
+        (fun k hm => hr.copy k (hr.refs.mj t k hm)) he hi.eq
     · by_cases hkt : k = t
       · subst hkt; exact exec_sufOk P s s' k i rest hsuf he
       · rcases otherRel_code (oth k hkt) with h1 | h1 <;> rw [h1]
@@ -172,10 +173,10 @@ theorem countInv_congr (P : Prog) (s s' : State) (hi : CountInv P s)
   · rw [hhs]; exact hi.memb.hh
   · rw [(hth j).1] at hm; exact hi.memb.pj j hm
 
-theorem countInv_step (P : Prog) (s s' : State) (l : Label) (h : stepL P s l = some s') (hi : CountInv P s) :
+theorem countInv_step (P : Prog) (s s' : State) (l : Label) (h : stepL P s l = some s') (hr : RefInv s) (hi : CountInv P s) :
     CountInv P s' := by
   cases l with
-  | thr t => exact countInv_thr P s s' t h hi
+  | thr t => exact countInv_thr P s s' t h hr hi
   | tick d =>
     simp only [stepL, Option.some.injEq] at h; subst h
     exact countInv_congr P s _ hi (fun k => ⟨rfl, rfl⟩) rfl rfl rfl
@@ -193,6 +194,6 @@ theorem countInv_reachable (P : Prog) (hn : 0 < P.n) (hm0 : P.managed 0 = false)
     CountInv P s := by
   induction h with
   | init => exact countInv_init P hn hm0
-  | step l _ hs ih => exact countInv_step P _ _ l hs ih
+  | step l hr hs ih => exact countInv_step P _ _ l hs (refInv_reachable P _ hr) ih
 
 end AwsVerif.Threads
